@@ -253,9 +253,10 @@ Definition base_totals (cr : bool) (c : nat) (tls : list tax_line) : list cat_to
   fold_left (add_tl cr c) tls [].
 
 (* calculateBaseCategoryTotal: rate amounts, category amount and surcharge at working precision *)
-Definition rt_calc (rt : rate_total) : rate_total :=
+Definition rt_calc (c : nat) (rt : rate_total) : rate_total :=
   match rt_pct rt with
-  | None => rt    (* exempt: amount stays zero *)
+  | None =>       (* exempt: rt.Amount = zero *)
+    mkRT (rt_key rt) (rt_country rt) (rt_ext rt) (rt_pct rt) (rt_sur rt) (rt_base rt) (zero_of c) (rt_suramount rt)
   | Some p =>
     mkRT (rt_key rt) (rt_country rt) (rt_ext rt) (rt_pct rt) (rt_sur rt) (rt_base rt)
          (pct_of p (rt_base rt))
@@ -275,8 +276,8 @@ Definition ct_step (cr : bool) (c : nat) (st : amount * option amount) (rt : rat
   end.
 
 Definition ct_calc (cr : bool) (c : nat) (ct : cat_total) : cat_total :=
-  let rts := map rt_calc (ct_rates ct) in
-  let st := fold_left (ct_step cr c) rts (zero_of c, ct_surcharge ct) in
+  let rts := map (rt_calc c) (ct_rates ct) in
+  let st := fold_left (ct_step cr c) rts (zero_of c, None) in   (* ct.Surcharge = nil: reset before recalculation *)
   mkCT (ct_code ct) (ct_retained ct) rts (fst st) (snd st) (fst st).
 
 (* calculateFinalSum *)
@@ -378,7 +379,7 @@ Definition calculate (d : doc) : calc_result :=
                          (map (fun p => present_ddc c (fst p) (snd p)) dds)
                          (map (fun p => present_ddc c (fst p) (snd p)) ccs)
                          (map R advs) (map (due_amount c payable) (d_dues d))
-                         cats taxsum_r)
+                         cats taxsum_r taxsum)
       end
     end
   end.
